@@ -29,12 +29,20 @@ STRENGTHENED = {
  "C18-m3": "round 2; missed at first (no nullable production was ever marked dynamic); caught after the Sign: '~' | EMPTY {dynamic} rule was added",
  "C18-m4": "round 2; missed at first (terminal-only marking was never built with LR); caught after the one-sided marking family was added",
  "C20-m4": "round 2; missed at first (no KEYWORD terminal in multi-file grammars); caught after an optional KEYWORD in the root file and glued inputs were added. While doing so a harness bug surfaced: the strict 'modular-differs-from-flattened' report passed a keyword twice and would have ended in a harness error (exit 2) instead of a VIOLATION; fixed, and tools_lint.py now looks for this pattern",
+ "C07-m6": "round 3; a pass-through custom_token_recognition hook (documented as 'no change') and GLR with lexical_disambiguation=True were added as parser configurations before it was run; caught",
+ "C12-m6": "round 3; missed at first (one root grammar per directory; and with grammars over different symbols the tolerant cache load of F15 hides a foreign table); caught after the sub-check sibling-root-grammars (two root files whose names share a stem, dialects over the same symbols) was added",
+ "C15-m5": "round 3; missed at first (user code only ever raised RuntimeError); caught after the exception class raised by the recognizer / action became a generated value",
+ "C16-m5": "round 3; missed at first (forests were only built with consume_input=True: one accepted head); caught after the worker also built the prefix forests (consume_input=False)",
+ "C18-m5": "round 3; missed at first; caught after the sub-check span-keyed-filters was added: an arbitrary consistent filter (a generated 64-bit mask over action kind, production / terminal and span in tokens) on grammars with nullable operators and a terminal that is both infix and prefix; GLR must return exactly the unfiltered trees without a rejected decision, an LR result must contain no decision that was rejected and never accepted",
+ "C18-m6": "round 3; missed at first (an EMPTY reduction was never offered after a non-empty one in the same action list); caught by the same sub-check's call-log clause",
+ "C20-m6": "round 3; a cache staleness defect (only the last-loaded file decides): C20 deletes caches between builds and cannot see it; caught by C12's histories as they stood",
  "C19-m2": "ported by hand onto the repaired keyword code (fix F13): KEYWORD regex run over the lower-cased text but compared with the original text",
 }
-ALSO = {"C04-m3": ["C05"], "C04-m4": ["C12"], "C16-m3": ["C12"], "C01-m1": ["C02"], "C01-m2": ["C02", "C04", "C05"], "C02-m2": ["C01"], "C04-m1": ["C05"], "C04-m2": ["C05"], "C13-m2": ["C09"],
+ALSO = {"C04-m3": ["C05"], "C04-m4": ["C12"], "C16-m3": ["C12"], "C04-m5": ["C05"], "C04-m6": ["C05"], "C20-m6": ["C12"],
+        "C12-m5": ["C16"], "C16-m6": ["C12"], "C01-m1": ["C02"], "C01-m2": ["C02", "C04", "C05"], "C02-m2": ["C01"], "C04-m1": ["C05"], "C04-m2": ["C05"], "C13-m2": ["C09"],
         "C16-m2": ["C12"]}
 NOT = {"C16-m2": ["C16"], "C02-m1": ["C01"], "C04-m4": ["C04", "C05"], "C17-m3": ["C02", "C03"], "C17-m4": ["C08"],
-       "C20-m4": ["C19"]}
+       "C20-m4": ["C19"], "C20-m6": ["C20"], "C16-m5": ["C17"]}
 for d in sorted(glob.glob('/verif/seeded/C*-m*')):
     mid = os.path.basename(d)
     prop = mid.split('-')[0]
@@ -50,7 +58,7 @@ for d in sorted(glob.glob('/verif/seeded/C*-m*')):
         "checks_run": "tools_mut.sh: git -C /repo apply patch.diff; python -m pv.run <property> --tier quick; undo",
         "detected_by_quick_checks": det,
         "not_detected_by": NOT.get(mid, []),
-        "history": STRENGTHENED.get(mid, ("round 2; " if int(mid.split("-m")[1]) >= 3 else "") + "caught by the property's quick check as it stood"),
+        "history": STRENGTHENED.get(mid, ("round 3; " if int(mid.split("-m")[1]) >= 5 else "round 2; " if int(mid.split("-m")[1]) >= 3 else "") + "caught by the property's quick check as it stood"),
     }
     json.dump(meta, open(os.path.join(d, 'meta.json'), 'w'), indent=1)
 print("ok")
